@@ -1,0 +1,63 @@
+//go:build verif
+
+package verifspec
+
+// Contracts for compiler/natives/src/math (property C13), mode fp: float64 is IEEE-754 binary64 in the SMT
+// floating-point theory.  The postconditions are the documented behaviour of the upstream package math
+// (including its special cases); `same` is equality up to NaN payload, signed zeros are distinguished.
+// Code compiled by GopherJS: int is 32 bits, float64 -> int conversion is JavaScript's ToInt32.
+
+//@ func natives:math.Signbit
+//@ property C13
+//@   word 32
+//@   initval natives:math._zero natives:math.negInf natives:math.posInf
+//@   ensures result == (signbit(x) && !isNaN(x))
+
+//@ func natives:math.IsNaN
+//@ property C13
+//@   word 32
+//@   ensures is == isNaN(f)
+
+//@ func natives:math.IsInf
+//@ property C13
+//@   word 32
+//@   initval natives:math._zero natives:math.negInf natives:math.posInf
+//@   ensures result == (isInf(f) && ((sign > 0 && !signbit(f)) || (sign < 0 && signbit(f)) || sign == 0))
+
+//@ func natives:math.Inf
+//@ property C13
+//@   word 32
+//@   initval natives:math._zero natives:math.negInf natives:math.posInf
+//@   ensures isInf(result) && (signbit(result) == (sign < 0))
+
+// Copysign(x, y): magnitude of x, sign of y (upstream treats the sign bit of y literally, also for -0).
+//@ func natives:math.Copysign
+//@ property C13
+//@   word 32
+//@   initval natives:math._zero natives:math.negInf natives:math.posInf
+//@   ensures isNaN(x) ==> isNaN(result)
+//@   ensures !isNaN(x) ==> same(fpabs(result), fpabs(x))
+//@   ensures !isNaN(x) && !isNaN(y) ==> signbit(result) == signbit(y)      // the sign bit of a NaN y is not observable in JavaScript
+
+// Trunc(x): the integer value of x (round toward zero); Trunc(+-0) = +-0, Trunc(+-Inf) = +-Inf, Trunc(NaN) = NaN.
+//@ func natives:math.Trunc
+//@ property C13
+//@   word 32
+//@   initval natives:math._zero natives:math.negInf natives:math.posInf
+//@   ensures same(result, rtz(x))
+
+// Mod is JavaScript's % on doubles (fmod, exact): left abstract.
+//@ extern natives:math.Mod
+//@   param x y
+//@   assigns nothing
+
+// Modf(f) = (integer part, fractional part), both with the sign of f; Modf(+-Inf) = (+-Inf, NaN); Modf(NaN) = (NaN, NaN).
+//@ func natives:math.Modf
+//@ property C13
+//@   word 32
+//@   results ip frac
+//@   initval natives:math._zero natives:math.negInf natives:math.posInf natives:math.nan
+//@   ensures same(ip, rtz(f))
+//@   ensures isInf(f) ==> isNaN(frac)
+//@   ensures !isInf(f) && !isNaN(f) ==> fpeq(frac, f - rtz(f)) && signbit(frac) == signbit(f)
+//@   ensures isNaN(f) ==> isNaN(frac)
